@@ -5,6 +5,10 @@ import KamalProxy.Std.Html
 namespace KamalProxy.Driver.Control
 open KamalProxy Proto
 
+/-- the certificate/key fixtures of the harness that load (`good.crt` + `good.key`); every other pair of names it
+    uses (`bad.crt`, `bad.key`, mixed) does not -/
+def fixtureGoodCerts : List (Bytes × Bytes) := [(asciiB "good.crt", asciiB "good.key")]
+
 def resName : Res → String
   | .ok => "ok" | .notFound => "notFound" | .hostInUse => "hostInUse" | .unhealthy => "unhealthy"
   | .rolloutNotSet => "rolloutNotSet" | .badTarget => "badTarget" | .badCert => "badCert"
@@ -36,7 +40,7 @@ def parseCmd (op : String) (kv : KV) : Option Cmd :=
   | "stop" => do pure (.stop (← getB kv "name") (← getB kv "msg"))
   | "resume" => do pure (.resume (← getB kv "name"))
   | "remove" => do pure (.remove (← getB kv "name"))
-  | "restart" => some .restart
+  | "restart" => some (.restart fixtureGoodCerts)
   | _ => none
 
 def pauseName (p : PauseSt) : String := pauseStName p
@@ -99,13 +103,13 @@ def showCfg (s : State) : String :=
 
 /-- the configuration a fresh process restores from this state's file -/
 def showRestored (s : State) : String :=
-  showCfg { core := restoreCore s.core.file, probing := [], idx := [] }
+  showCfg { core := restoreCore fixtureGoodCerts s.core.file, probing := [], idx := [] }
 
 /-- does `saveStateSnapshot` run in this command (T1 ties the call sites) -/
 def snapshots (r : Res) : Cmd → Bool
   | .deploy .. => r == .ok || r == .hostInUse
   | .rolloutDeploy .. => r == .ok || r == .hostInUse
-  | .restart => false
+  | .restart _ => false
   | _ => true
 
 def decLine (h : String) : Option (String × KV) :=
